@@ -23,16 +23,40 @@ if ! cargo build --release --offline -p "$pkg" >"$log" 2>&1; then
 fi
 rm -f "$log"
 cd "$here" || exit 2
+# Secondary stage for C02/C03: the cfg(windows) threaded communicator, extracted
+# at build time into the wincheck crate and run over real pipes.  A build failure
+# of that crate (Windows-only source that no longer compiles in isolation) skips
+# the stage with a note; it never turns into a verdict.
+win_stage() {
+  case "$id" in
+    C02|C03)
+      if ( cd "$here/harness" && cargo build --release --offline -p wincheck >/dev/null 2>&1 ); then
+        "$here/harness/target/release/wincheck" stage wincomm "$id" "$mode"; return $?
+      else
+        echo "NOTE property=$id win_raw stage skipped: extracted Windows communicator does not build" >&2
+      fi ;;
+  esac
+  return 0
+}
 case "$mode" in
-  quick) exec "$here/harness/target/release/$bin" check "$id" "$mode" ;;
+  quick)
+    "$here/harness/target/release/$bin" check "$id" "$mode"; rc=$?
+    if [ "$rc" = 0 ]; then win_stage; rc=$?; fi
+    exit $rc ;;
   thorough)
     "$here/harness/target/release/$bin" check "$id" "$mode"; rc=$?
+    if [ "$rc" = 0 ]; then win_stage; rc=$?; fi
     # coverage-guided stage (libFuzzer) for the properties decided on the simulated engines
     case "$id" in
       C01|C02|C03|C04|C09|C10|C11)
         if [ "$rc" = 0 ]; then python3 "$here/tools/fuzz_stage.py" "$id"; rc=$?; fi ;;
     esac
     exit $rc ;;
-  replay) exec "$here/harness/target/release/$bin" replay "$id" "$path" ;;
+  replay)
+    if [ -n "$path" ] && grep -q '"engine": "win_raw"' "$path" 2>/dev/null; then
+      ( cd "$here/harness" && cargo build --release --offline -p wincheck >/dev/null 2>&1 ) || exit 2
+      exec "$here/harness/target/release/wincheck" replay "$id" "$path"
+    fi
+    exec "$here/harness/target/release/$bin" replay "$id" "$path" ;;
   *) echo "usage: run.sh <quick|thorough|replay> <id> [path]" >&2; exit 2 ;;
 esac
